@@ -5,12 +5,11 @@ CONSTANTS
   PairSeqs <- mcPairSeqs
   CrawlBatches <- mcCrawl
   AnchorRules <- mcAnchorRules
-  DefRule <- Dom
+  DefRule <- Sub
   InitRules <- mcInitRules
   Ops <- mcOps
   ProbeLrus <- mcProbe
   MaxLevel = 4
-  EmitT = FALSE
-INVARIANT EmitAll
+  EmitT = TRUE
 VIEW View
 CHECK_DEADLOCK FALSE
